@@ -1,5 +1,5 @@
 SPECIFICATION Spec
-CONSTANTS Pfx = {"A", "B"} MaxHops = 1 MaxCid = 1 QCap = 100 MaxDepth = 5 LeakDetached = FALSE AnyState = FALSE MaxInst = 3 Lifecycle = TRUE UnloadClears = FALSE CandInit = {FALSE} CloseWays = {"closeR", "remove"} ReasonDecides = FALSE ReadyInit = FALSE
+CONSTANTS Pfx = {"A", "B"} MaxHops = 1 MaxCid = 1 QCap = 100 MaxDepth = 5 LeakDetached = FALSE AnyState = FALSE MaxInst = 3 Lifecycle = TRUE UnloadClears = FALSE CandInit = {FALSE} CloseWays = {"closeR", "remove"} ReasonDecides = FALSE ReadyInit = FALSE Expiry = FALSE
 INVARIANT TypeOK
 INVARIANT NoRawForAnon
 INVARIANT TunnelledOnlyOverReadyRightCircuit
